@@ -6,6 +6,7 @@ import (
 	"os"
 	"path/filepath"
 	"runtime"
+	"sort"
 	"strings"
 	"sync"
 
@@ -27,7 +28,71 @@ func init() {
 	})
 }
 
-var c11OpNames = []string{"size", "marshal", "detmarshal", "hasget", "range", "which", "equal", "clone", "mergefrom", "json", "string", "canon"}
+var c11OpNames = []string{"size", "marshal", "detmarshal", "hasget", "range", "which", "equal", "clone", "mergefrom", "json", "string", "canon", "sharedviews", "sharedviews"}
+
+// Views of the shared message (List, Map and nested Message values) obtained
+// ONCE, before the goroutines start, and read by all of them: a view is a
+// reference into the message, and reading through it is a read of the message.
+type c11View struct {
+	fd protoreflect.FieldDescriptor
+	v  protoreflect.Value
+}
+
+var (
+	c11SharedMsg   proto.Message
+	c11SharedViews []c11View
+)
+
+func collectViews(m protoreflect.Message, depth int, out *[]c11View) {
+	if depth > 2 || !m.IsValid() {
+		return
+	}
+	m.Range(func(fd protoreflect.FieldDescriptor, v protoreflect.Value) bool {
+		switch {
+		case fd.IsList():
+			*out = append(*out, c11View{fd, v})
+			if fd.Message() != nil {
+				for i := 0; i < v.List().Len() && i < 3; i++ {
+					collectViews(v.List().Get(i).Message(), depth+1, out)
+				}
+			}
+		case fd.IsMap():
+			*out = append(*out, c11View{fd, v})
+		case fd.Message() != nil:
+			*out = append(*out, c11View{fd, v})
+			collectViews(v.Message(), depth+1, out)
+		}
+		return true
+	})
+}
+
+func readViews(views []c11View) string {
+	var sb strings.Builder
+	for _, vw := range views {
+		switch {
+		case vw.fd.IsList():
+			l := vw.v.List()
+			fmt.Fprintf(&sb, "L%d[", l.Len())
+			for i := 0; i < l.Len(); i++ {
+				sb.WriteString(elemStr(vw.fd, l.Get(i), model.Same))
+				sb.WriteString(",")
+			}
+			sb.WriteString("]")
+		case vw.fd.IsMap():
+			mp := vw.v.Map()
+			var parts []string
+			mp.Range(func(k protoreflect.MapKey, v protoreflect.Value) bool {
+				parts = append(parts, model.CanonValue(vw.fd.MapKey(), k.Value())+"="+elemStr(vw.fd.MapValue(), v, model.Same)+fmt.Sprint(mp.Has(k)))
+				return true
+			})
+			sort.Strings(parts)
+			fmt.Fprintf(&sb, "M%d{%s}", mp.Len(), strings.Join(parts, ","))
+		default:
+			sb.WriteString(model.Canon(vw.v.Message(), model.Same))
+		}
+	}
+	return fmt.Sprintf("%x", digest(sb.String()))
+}
 
 func c11Op(name string, p, priv proto.Message) string {
 	m := p.ProtoReflect()
@@ -90,6 +155,13 @@ func c11Op(name string, p, priv proto.Message) string {
 		return ""
 	case "canon":
 		return fmt.Sprintf("%x", digest(canonP(p)))
+	case "sharedviews":
+		if p == c11SharedMsg {
+			return readViews(c11SharedViews)
+		}
+		var vs []c11View
+		collectViews(m, 0, &vs)
+		return readViews(vs)
 	}
 	return "?"
 }
@@ -220,6 +292,15 @@ func checkC11(ctx *Ctx, c *Case, rounds int) error {
 		}
 	}
 	injectNils(shared)
+	c11SharedMsg, c11SharedViews = shared, nil
+	for _, op := range c.Ops {
+		if op.Op == "sharedviews" {
+			// only then: collecting the views reads the message sequentially, and the
+			// other cases keep their shared message untouched until the goroutines start
+			collectViews(shared.ProtoReflect(), 0, &c11SharedViews)
+			break
+		}
+	}
 	byG := map[int][]Op{}
 	maxG := 0
 	for _, op := range c.Ops {
